@@ -174,8 +174,12 @@ class QsysResult:
 
         """
         shot_dct: dict[str, list[str]] = defaultdict(list)
-        for shot in self.results:
+        for i, shot in enumerate(self.results):
             bitstrs = shot.to_register_bits()
+            # every earlier shot passed this check, so shot_dct holds their common registers
+            if strict_names and i > 0 and bitstrs.keys() != shot_dct.keys():
+                msg = "All shots must have the same registers."
+                raise ValueError(msg)
             for reg, bitstr in bitstrs.items():
                 if (
                     strict_lengths
@@ -185,9 +189,6 @@ class QsysResult:
                     msg = "All register bitstrings must have the same length."
                     raise ValueError(msg)
                 shot_dct[reg].append(bitstr)
-            if strict_names and bitstrs.keys() != shot_dct.keys():
-                msg = "All shots must have the same registers."
-                raise ValueError(msg)
         return dict(shot_dct)
 
     def to_pytket(self) -> BackendResult:
